@@ -40,6 +40,8 @@ VARIABLES
   hstat,     \* status of the handler nodes
   canceled, lastErr, timedOut,
   spc, si, sround,   \* Signal caller: gate; node index; "term" | "kill"
+  sreq,      \* per step: the stop request has reached the node (requestStop): it creates no executor any more
+  prevented, \* per step: the stop request reached an executor that had not started its process (PreventStart / Kill): Run starts nothing
   \* ---- history variables (not read by any action guard)
   execs,     \* process starts per step
   early,     \* C01 violated at some start
@@ -57,7 +59,7 @@ loopVars == <<lpc, li, wg, hq, hlog, hstat, hselRun>>
 nodeVars == <<status, retry, doneCnt>>
 workVars == <<wpc, tails, cmd, alive, sigd, res>>
 flagVars == <<canceled, lastErr, timedOut>>
-stopVars == <<spc, si, sround>>
+stopVars == <<spc, si, sround, sreq, prevented>>
 histVars == <<execs, early, lateStart, lateFresh, created, pastCreate, hwm, rwait, lastOK, stopDone>>
 vars == <<cfg, loopVars, nodeVars, workVars, flagVars, stopVars, histVars>>
 
@@ -91,6 +93,7 @@ InitRest ==
   /\ hq = <<>> /\ hlog = <<>> /\ hstat = [h \in HTypes |-> NS] /\ hselRun = "none"
   /\ canceled = FALSE /\ lastErr = FALSE /\ timedOut = FALSE
   /\ spc = "idle" /\ si = 1 /\ sround = "term"
+  /\ sreq = [s \in Steps |-> FALSE] /\ prevented = [s \in Steps |-> FALSE]
   /\ execs = [s \in Steps |-> 0] /\ early = FALSE /\ lateStart = FALSE /\ lateFresh = FALSE
   /\ created = [s \in Steps |-> FALSE] /\ pastCreate = [s \in Steps |-> FALSE]
   /\ hwm = 0 /\ rwait = [s \in Steps |-> FALSE] /\ lastOK = [s \in Steps |-> FALSE]
@@ -192,20 +195,24 @@ WBegin(s) ==
   /\ UNCHANGED <<cfg, loopVars, retry, doneCnt, cmd, alive, sigd, res, flagVars, stopVars, histVars>>
 
 WExec(s) ==
-  /\ wpc[s] = "worker.exec"                                       \* execNode -> Execute -> setupExec (node.go:156-208)
+  /\ wpc[s] = "worker.exec"                                       \* execNode -> Execute -> setupExec (node.go)
   /\ IF cfg.dry
        THEN /\ res' = [res EXCEPT ![s] = "ok"] /\ wpc' = [wpc EXCEPT ![s] = "worker.post"]
-            /\ UNCHANGED <<cmd, created>>
+            /\ UNCHANGED <<cmd, created, prevented>>
+     ELSE IF sreq[s]                                              \* setupExec refuses: the run is being stopped
+       THEN /\ res' = [res EXCEPT ![s] = "nostart"] /\ wpc' = [wpc EXCEPT ![s] = "worker.post"]
+            /\ UNCHANGED <<cmd, created, prevented>>
        ELSE /\ cmd' = [cmd EXCEPT ![s] = TRUE] /\ created' = [created EXCEPT ![s] = TRUE]
+            /\ prevented' = [prevented EXCEPT ![s] = FALSE]       \* a new executor
             /\ wpc' = [wpc EXCEPT ![s] = "node.created"] /\ UNCHANGED res
-  /\ UNCHANGED <<cfg, loopVars, nodeVars, tails, alive, sigd, flagVars, stopVars,
+  /\ UNCHANGED <<cfg, loopVars, nodeVars, tails, alive, sigd, flagVars, spc, si, sround, sreq,
                  execs, early, lateStart, lateFresh, pastCreate, hwm, rwait, lastOK, stopDone>>
 
 NExec == NExecuting(Steps, alive, rwait)
 
 WStart(s) ==
   /\ wpc[s] = "node.created"                                      \* cmd.Run(): process start (command.go:50-57)
-  /\ IF timedOut                                                  \* exec.CommandContext refuses an expired context
+  /\ IF timedOut \/ prevented[s]                                  \* exec.CommandContext refuses an expired context; Run after PreventStart / Kill
        THEN /\ res' = [res EXCEPT ![s] = "nostart"] /\ wpc' = [wpc EXCEPT ![s] = "worker.post"]
             /\ UNCHANGED <<alive, sigd, execs, early, lateStart, lateFresh, hwm>>
        ELSE /\ alive' = [alive EXCEPT ![s] = TRUE] /\ sigd' = [sigd EXCEPT ![s] = "none"]
@@ -288,16 +295,18 @@ SCall == /\ spc = "idle" /\ cfg.stop /\ lpc # "returned"          \* a stop requ
          /\ canceled' = TRUE /\ spc' = "signal.flagged" /\ sround' = "term"
          /\ pastCreate' = [s \in Steps |-> wpc[s] \in {"worker.exec", "node.created"}]   \* worker already past its own cancel check
          /\ stopDone' = FinishedSt(status)
+         /\ sreq' = [s \in Steps |-> TRUE]                        \* requestStop on every node (repeating ones too) before the gate
+         /\ prevented' = [s \in Steps |-> prevented[s] \/ wpc[s] = "node.created"]   \* executor created, process not started
          /\ UNCHANGED <<cfg, loopVars, nodeVars, workVars, lastErr, timedOut, si,
                         execs, early, lateStart, lateFresh, created, hwm, rwait, lastOK>>
 
 SKillCall == /\ spc = "between" /\ cfg.kill /\ lpc # "returned"   \* agent escalation: Signal(SIGKILL) (agent.go:404-408)
              /\ spc' = "signal.flagged" /\ sround' = "kill"
-             /\ UNCHANGED <<cfg, loopVars, nodeVars, workVars, flagVars, si, histVars>>
+             /\ UNCHANGED <<cfg, loopVars, nodeVars, workVars, flagVars, si, sreq, prevented, histVars>>
 
 SFlagged == /\ spc = "signal.flagged"
             /\ spc' = "signal.node" /\ si' = 1
-            /\ UNCHANGED <<cfg, loopVars, nodeVars, workVars, flagVars, sround, histVars>>
+            /\ UNCHANGED <<cfg, loopVars, nodeVars, workVars, flagVars, sround, sreq, prevented, histVars>>
 
 SNode ==
   /\ spc = "signal.node"
@@ -307,7 +316,7 @@ SNode ==
        ELSE UNCHANGED <<status, sigd>>
   /\ IF si < N THEN si' = si + 1 /\ UNCHANGED spc
               ELSE si' = 1 /\ spc' = (IF sround = "term" THEN "between" ELSE "done")
-  /\ UNCHANGED <<cfg, loopVars, retry, doneCnt, wpc, tails, cmd, alive, res, flagVars, sround, histVars>>
+  /\ UNCHANGED <<cfg, loopVars, retry, doneCnt, wpc, tails, cmd, alive, res, flagVars, sround, sreq, prevented, histVars>>
 
 \* context deadline (scheduler.go:108-112)
 TFire == /\ cfg.timeout /\ ~timedOut /\ lpc # "returned"
@@ -364,6 +373,9 @@ C04_NoRunningLeft == Returned => \A s \in Steps : status[s] # RUN
 \* when the KILL escalation round of Signal is over, every process still alive (repeat steps excepted) has been sent SIGKILL
 C05_KillReaches  == spc = "done" => \A s \in Steps : alive[s] /\ ~cfg.repeat[s] => sigd[s] = "kill"
 \* when the TERM round is over, every process that was alive when the stop was accepted and still is has been signalled
+\* after the first round every live process of a non-repeating step has got the stop signal (no exception any more for
+\* workers that were past their cancel check: they start nothing)
+C05_TermReachesAll == spc = "between" => \A s \in Steps : alive[s] /\ ~cfg.repeat[s] => sigd[s] # "none"
 C05_TermReaches  == spc = "between" => \A s \in Steps : alive[s] /\ ~cfg.repeat[s] /\ ~pastCreate[s] => sigd[s] # "none"
 
 \* C10: whatever instant a run is cut at, its status vector is one the retry rules are defined for
